@@ -23,9 +23,15 @@ def main(tier):
     UnitDatabase.PushSingleton(db)
     n = 0
     try:
+        def twounit_q():
+            from collections import OrderedDict
+            return ObtainQuantity(OrderedDict([("length", ["m", 1]), ("diameter", ["cm", 1])]))
+
         def mkscalar(qsel, v):
             if qsel == "captioned":
                 return Scalar(ObtainQuantity("<unknown>", None, "Gamma API"), v)
+            if qsel == "twounit":
+                return Scalar(twounit_q(), v)
             if qsel == "pure":
                 return Scalar(v, "-")
             if qsel == "simple":
@@ -41,6 +47,8 @@ def main(tier):
             one = {"list": [1.0] * len(vs), "tuple": (1.0,) * len(vs), "ndarray": numpy.ones(len(vs)), "intarray": numpy.ones(len(vs))}[kind]
             if qsel == "captioned":
                 return Array(ObtainQuantity("<unknown>", None, "Gamma API"), cont)
+            if qsel == "twounit":
+                return Array(twounit_q(), cont)
             if qsel == "pure":
                 return Array(cont, "-")
             if qsel == "simple":
@@ -136,6 +144,6 @@ def main(tier):
     rep.cov["exhaustive"] = True
     rep.assumptions += ["numbers 3, 0.5, -2, 0 and amounts 2, 4, -3, 2.5: exact in binary, so floor divisions have no rounding boundary",
                         "ndarray operands are combined with Arrays only; complex and bool are not generated (DESIGN 8)"]
-    return rep.finish(rule="3 quantities (simple, derived, squared) x 10 operators (both operand orders) x 4 numbers x 4 amounts predicted by TLC; each row "
+    return rep.finish(rule="6 quantities (simple, derived, squared, dimensionless, captioned Unknown, one type in two units) x 10 operators (both operand orders) x 4 numbers x 4 amounts predicted by TLC; each row "
                            "instantiated with int / float / numpy.float64 / numpy.int64 numbers (single-precision numbers round by construction and are not generated), Scalar and Array / FixedArray in list / tuple / "
                            "float ndarray / integer ndarray containers, and a numpy array operand; class, composing map and values compared")
